@@ -31,13 +31,15 @@ Theorem C19_concat_global_names_refuted :
   /\ law_cc (cq_without 0 concat_actual) (EPlug c_other) w_doc = true.
 Proof. vm_compute. repeat split; reflexivity. Qed.
 
-(* `text += chunk` is reported because of the NAME text; renamed, it is not *)
+(* `buffer += chunk` is reported because of the NAME buffer, which the code's table has and the documentation does not;
+   renamed (no documented name involved), it is not *)
 Definition w_named : list ast :=
   [N "body" "FunctionDef" 1 0 "join_chunks" "" [N "args" "arguments" 1 0 "" "" [N "args" "arg" 1 16 "chunks" "" []];
      N "body" "For" 2 4 "" "" [N "target" "Name" 2 8 "chunk" "" []; N "iter" "Name" 2 17 "chunks" "" [];
-        N "body" "AugAssign" 3 8 "" "" [N "target" "Name" 3 8 "text" "" []; N "op" "Add" 3 8 "" "" []; N "value" "Name" 3 16 "chunk" "" []]];
-     N "body" "Return" 4 4 "" "" [N "value" "Name" 4 11 "text" "" []]]].
+        N "body" "AugAssign" 3 8 "" "" [N "target" "Name" 3 8 "buffer" "" []; N "op" "Add" 3 8 "" "" []; N "value" "Name" 3 18 "chunk" "" []]];
+     N "body" "Return" 4 4 "" "" [N "value" "Name" 4 11 "buffer" "" []]]].
 Theorem C19_concat_name_table_refuted :
-  law_cc concat_actual (ERename [("text", "text_rn")]) w_named = false
-  /\ law_cc (cq_without 2 concat_actual) (ERename [("text", "text_rn")]) w_named = true.
+  in_domain (ERename [("buffer", "buffer_rn")]) w_named = [true; true]
+  /\ law_cc concat_actual (ERename [("buffer", "buffer_rn")]) w_named = false
+  /\ law_cc (cq_without 2 concat_actual) (ERename [("buffer", "buffer_rn")]) w_named = true.
 Proof. vm_compute. repeat split; reflexivity. Qed.
